@@ -13,6 +13,14 @@ CLAIMED = {
          "Bounded-exhaustive model checking of the tokenizer automaton (all strings over the 12-symbol token alphabet up to the tier's length, safety + termination under weak fairness), bound to the code in both directions: each enumerated input and seeded random Unicode strings are tokenised by the real crate and TLC accepts the recorded token lists only if they satisfy the property-level specification TokenizerAbs; equality with the implementation-level model is reported as impl_model_exact.",
          "Trusted: TLC, the JSON reader, the harness's copy of observations. Termination of the real code is observed by watchdog, not proved.",
          "§5 C16, Appendix B"),
+ "C17": ("TLA+ transcription of the escape replace-chain and the unescape automaton; invariant RoundTrip checked by TLC over all words of the escape alphabets; every enumerated word and random Unicode strings replayed through the real escape_string/unescape_string and validated by TLC",
+         "Bounded-exhaustive model checking of the modelled escape chain (order of passes is part of the model) and unescape automaton, bound to the code by replaying every enumerated string and seeded random strings through the three real backends; TLC accepts a record only if unescape(escape(s)) = s, and reports whether the real output equals the modelled one.",
+         "Trusted: TLC, JSON reader, harness copying results. String length beyond the bounds is covered only by random replay.",
+         "§5 C17"),
+ "C03": ("Engine lexical rules (MySQL, PostgreSQL, SQLite) written in TLA+ from the manuals; TLC checks on the modelled escaping that every literal is one token decoding to the value, generates the strings, and validates the recorded output of the real value_to_string and of 19 inlining positions token-by-token; the real SQLite engine is authoritative for the SQLite dialect",
+         "Model checking of `Impl => R` on the escape model over the escape-relevant alphabets, plus trace validation of the real code: for every enumerated/random string and byte string TLC lexes the recorded literal with the engine's rules (single token, decoded value equals input) and, for literals embedded in query/schema statements, requires that no other token of the statement depends on the value (injection safety). SQLite renderings are additionally executed on the real engine.",
+         "Trusted: the MySQL/PostgreSQL lexical models (no engine available), TLC, SQLite 3.40.1. NUL excluded on PostgreSQL/SQLite.",
+         "§5 C03, Appendix C.1"),
 }
 NA = {
  "C20": "Type-level fact about Rust auto-traits decided only by rustc's trait solver; no state, transition or observable behaviour to model or trace (DESIGN.md §5 C20).",
